@@ -420,11 +420,23 @@ impl WalWriter {
         #[cfg(feature = "verif-hooks")]
         crate::verif_hooks::crash_point("wal.rotate.after_sync", &self.path);
 
-        // Rename to timestamped file
-        let timestamp = current_timestamp();
-        let rotated_path = self
+        // Rename to timestamped file. The name must be new and must sort after every
+        // earlier rotation: a second rotation within the same second used to rename
+        // onto the first one and silently replaced its records.
+        let now = SystemTime::now()
+            .duration_since(UNIX_EPOCH)
+            .unwrap_or_default();
+        let timestamp = now.as_secs();
+        let mut sequence = u64::from(now.subsec_nanos());
+        let mut rotated_path = self
             .path
-            .with_file_name(format!("wal.{timestamp}.{WAL_EXTENSION}"));
+            .with_file_name(format!("wal.{timestamp}.{sequence:09}.{WAL_EXTENSION}"));
+        while rotated_path.exists() {
+            sequence += 1;
+            rotated_path = self
+                .path
+                .with_file_name(format!("wal.{timestamp}.{sequence:09}.{WAL_EXTENSION}"));
+        }
         std::fs::rename(&self.path, &rotated_path).map_err(|e| {
             P2PError::Storage(StorageError::Database(
                 format!("Failed to rotate WAL: {e}").into(),
